@@ -33,6 +33,7 @@ DRIVER = "drv_c06"
 LEAN_TARGETS = ["PharmpyProofs.C06.Properties", "drv_c06"]
 PROPERTIES = ["PharmpyProofs/C06/Properties.lean"]
 LEAN_SOURCES = ["PharmpyModel/C06/*.lean", "PharmpyModel/Generated/EqHash.lean", "PharmpyModel/Generated/Effects.lean",
+                "PharmpyModel/Generated/Containers.lean",
                 "PharmpyProofs/C06/*.lean", "Drivers/C06.lean"]
 TIME_LIMIT = {"quick": 900, "thorough": 3000}
 CASE_CPU_LIMIT = 60
@@ -59,7 +60,7 @@ ASSUMPTIONS = [
 
 
 def budget(tier):
-    return int(os.environ.get("VERIF_BUDGET", 0)) or {"quick": 700, "thorough": 12000}[tier]
+    return int(os.environ.get("VERIF_BUDGET", 0)) or {"quick": 600, "thorough": 12000}[tier]
 
 
 # ================================================================== case generation
@@ -106,6 +107,9 @@ COMMUTING = [
     ["set_lower_bounds", {"bounds": {"POP_CL": 0.001}}], ["set_name", {"new_name": "other"}],
     ["drop_columns", {"column_names": ["FA2"]}], ["set_dvid", {"name": "FA1"}], ["add_cmt", {}], ["add_admid", {}],
 ]
+COLL_OPS = [("create", "-"), ("replace", "-"), ("__add__", "item"), ("__add__", "collection"), ("__add__", "sequence"),
+            ("__radd__", "item"), ("__radd__", "sequence")]
+COLL_CLASSES = ["Parameters", "RandomVariables", "DataInfo"]
 ORDER_KINDS = ["odes", "statements", "parameters", "columninfo", "datainfo", "eststep", "rvs", "dists", "basic",
                "model", "compartment", "mappings"]
 OBJECT_KINDS = ["parameter", "parameters", "columninfo", "datainfo", "frozenmapping", "eststep", "steps", "normal", "joint",
@@ -151,6 +155,8 @@ def gen_cases(rng: random.Random, n: int, tier: str):
                     "seed": rng.randrange(1 << 30)})
     for j in range(n_ord):
         out.append({"kind": "orders", "what": ORDER_KINDS[j % len(ORDER_KINDS)], "seed": rng.randrange(1 << 30)})
+    for j in range(max(len(COLL_OPS) * len(COLL_CLASSES) * 2, n // 10)):
+        out.append({"kind": "coll", "cls": COLL_CLASSES[j % 3], "op": (j // 3) % len(COLL_OPS), "seed": rng.randrange(1 << 30)})
     for j in range(n_com):
         f, g = rng.sample(range(len(COMMUTING)), 2)
         out.append({"kind": "commute", "f": f, "g": g, "recipe": rng.choice([0, 0, 0, 1, 2, 3, 9]), "seed": rng.randrange(1 << 30)})
@@ -171,6 +177,10 @@ def corpus_cases():
         {"kind": "call", "fn": "write_csv", "recipe": 0, "seed": 9},
         # open finding: lag time left on CENTRAL after the dose moved to TRANSIT1
         {"kind": "call", "fn": "set_transit_compartments", "recipe": 10, "seed": 325059778},
+    ] + [{"kind": "coll", "cls": c, "op": o, "seed": 300 + 7 * o + i} for i, c in enumerate(COLL_CLASSES) for o in range(len(COLL_OPS))] + [
+        {"kind": "call", "fn": fn, "recipe": rec, "seed": sd}
+        for fn in ("add_population_parameter", "add_individual_parameter", "add_iiv", "add_iov", "rename_symbols", "create_symbol")
+        for rec in (0, 5) for sd in (401, 402, 403)
     ] + [{"kind": "orders", "what": w, "seed": 100 + i} for i, w in enumerate(ORDER_KINDS)] + [
         {"kind": "commute", "f": 0, "g": 1, "recipe": 0, "seed": 200},
         {"kind": "commute", "f": 2, "g": 1, "recipe": 0, "seed": 201},
@@ -405,7 +415,10 @@ def _by_name(fn, pname, ann, rng, model, pools):
         "effect": lambda: rng.choice(["lin", "cat", "piece_lin", "exp", "pow"]),
         "list_of_parameters": lambda: _subset(rng, P["indiv"]),
         "occ": lambda: rng.choice(["FA1", "APGR"]),
-        "name": lambda: rng.choice(["FA1", "DVID"]) if fn == "set_dvid" else rng.choice(["NEWP", "XP1", "CL"]),
+        # fresh names and names that are already taken (parameter, random variable, statement symbol, data column)
+        "name": lambda: rng.choice(["FA1", "DVID"]) if fn == "set_dvid" else rng.choice(
+            ["NEWP", "XP1"] + [rng.choice(P["params"]), rng.choice(P["etas"] + P["eps"]), rng.choice(P["symbols"]),
+                               rng.choice(P["columns"])]),
         "init": lambda: round(rng.uniform(0.1, 2), 3),
         "pred": lambda: _subset(rng, ["IPRED", "PRED", "CIPREDI"]),
         "res": lambda: _subset(rng, ["CWRES", "RES", "WRES"]),
@@ -417,7 +430,7 @@ def _by_name(fn, pname, ann, rng, model, pools):
         "parameter_estimates": lambda: pd.Series(_inits_within_bounds(model, rng, P["params"])),
         "individual_estimates": lambda: _frame_of_etas(model, rng),
         "etas": lambda: _frame_of_etas(model, rng),
-        "stem": lambda: rng.choice(["X", "CL", "TVCL"]),
+        "stem": lambda: rng.choice(["X", "CL", "TVCL", rng.choice(P["params"]), rng.choice(P["etas"]), rng.choice(P["columns"])]),
         "column_names": lambda: rng.choice([["FA1"], "FA2", ["APGR", "FA1"], ["WGT"]]),
         "parameters": lambda: ({p: rng.random() < 0.5 for p in _subset(rng, P["params"])} if fn == "fix_or_unfix_parameters"
                                else _subset(rng, P["params"]) if "list" in ann or "Iterable" in ann else None),
@@ -430,9 +443,13 @@ def _by_name(fn, pname, ann, rng, model, pools):
         "rvs": lambda: _subset(rng, P["etas"]),
         "list_of_etas": lambda: _subset(rng, P["etas"]),
         "list_of_eps": lambda: _subset(rng, P["eps"]),
-        "eta_names": lambda: None,
+        "eta_names": lambda: rng.choice([None, "@taken"]),
         "variable": lambda: rng.choice(P["columns"]),
-        "new_names": lambda: rng.choice([{"CL": "CLX"}, {"TVCL": "TVCLX"}, {P["params"][0]: "THX"}]),
+        "new_names": lambda: rng.choice([{"CL": "CLX"}, {"TVCL": "TVCLX"}, {P["params"][0]: "THX"},
+                                         # targets that are already taken
+                                         {P["params"][0]: P["params"][-1]}, {P["etas"][0]: P["etas"][-1]},
+                                         {P["symbols"][0]: P["symbols"][-1]}, {P["params"][0]: P["columns"][-1]},
+                                         {P["symbols"][-1]: P["params"][0]}, {P["etas"][0]: P["params"][0]}]),
         "covariates": lambda: _subset(rng, P["covs"]),
         "path_or_df": lambda: (model.dataset.copy() if model.dataset is not None
                                else pd.DataFrame({"ID": [1, 1], "TIME": [0.0, 1.0], "DV": [0.0, 2.0]})),
@@ -595,6 +612,18 @@ def build_args(fn, f, model, rng):
                 raise Uncallable(f"no generator for required parameter {p.name}: {ann[:60]}")
             continue
         kwargs[p.name] = v
+    if kwargs.get("eta_names") == "@taken":
+        # as many names as the function will need, some of them already taken by a random variable / parameter
+        lp = kwargs.get("list_of_parameters")
+        need = len(lp) if isinstance(lp, list) else 1
+        if fn == "add_iov":
+            need = len(lp) if isinstance(lp, list) else len(pools["etas"])
+            need *= 2
+        taken = pools["etas"] + pools["eps"] + pools["params"][:1]
+        kwargs["eta_names"] = [rng.choice(taken) if rng.random() < 0.6 else f"ETA_NEW{i}" for i in range(need)]
+        if len(set(kwargs["eta_names"])) != len(kwargs["eta_names"]) and rng.random() < 0.5:
+            kwargs["eta_names"] = list(dict.fromkeys(kwargs["eta_names"])) + [f"ETA_X{i}" for i in range(need)]
+            kwargs["eta_names"] = kwargs["eta_names"][:need]
     return kwargs
 
 
@@ -605,16 +634,45 @@ def _describe(kwargs):
 
 # ================================================================== well-formedness of a result
 
-def wellformed(model, arg_model=None, fn_name=""):
+def _user_strings(kwargs):
+    """Every string the caller passed (names, lists of names, rename targets)."""
+    out = set()
+
+    def walk(v):
+        if isinstance(v, str):
+            out.add(v)
+        elif isinstance(v, dict):
+            for a, b in v.items():
+                walk(a)
+                walk(b)
+        elif isinstance(v, (list, tuple, set)):
+            for x in v:
+                walk(x)
+    walk(kwargs or {})
+    return out
+
+
+def wellformed(model, arg_model=None, fn_name="", kwargs=None):
     """The well-formedness clauses of the property statement; returns list of (cls, what)."""
     bad = []
     arg_columns = set(arg_model.datainfo.names) if arg_model is not None else set()
     names = list(model.parameters.names)
     if len(set(names)) != len(names):
-        bad.append(("wf-duplicate-parameter-names", f"duplicate parameter names {sorted(n for n in names if names.count(n) > 1)}"))
+        bad.append(("wf-duplicate-parameter-names:" + fn_name, f"duplicate parameter names {sorted(n for n in names if names.count(n) > 1)}"))
     rvn = list(model.random_variables.names)
     if len(set(rvn)) != len(rvn):
-        bad.append(("wf-duplicate-rv-names", f"duplicate random variable names {rvn}"))
+        dups = sorted(n for n in set(rvn) if rvn.count(n) > 1)
+        # known mechanism: a random-variable name passed by the caller (eta_names, rename target) is not checked
+        # against the names already present; anything else is classified by function
+        which = "user-supplied-name" if set(dups) <= _user_strings(kwargs) else fn_name
+        bad.append(("wf-duplicate-rv-names:" + which, f"duplicate random variable names {dups}"))
+    cols = list(model.datainfo.names)
+    if len(set(cols)) != len(cols):
+        bad.append(("wf-duplicate-column-names:" + fn_name, f"duplicate data column names {sorted(n for n in set(cols) if cols.count(n) > 1)}"))
+    clash = (set(names) & set(rvn)) | (set(names) & set(cols)) | (set(rvn) & set(cols))
+    if clash:
+        which = "user-supplied-name" if clash <= _user_strings(kwargs) else fn_name
+        bad.append(("wf-name-clash:" + which, f"{sorted(clash)} name(s) used for more than one of parameter / random variable / data column"))
     for p in model.parameters:
         if not (p.lower <= p.init <= p.upper) or (isinstance(p.init, float) and math.isnan(p.init)):
             bad.append(("wf-init-outside-bounds:" + fn_name, f"parameter {p.name}: init {p.init} not within [{p.lower}, {p.upper}]"))
@@ -988,7 +1046,7 @@ def run_call(case, drv):
             models += [x for x in r if isinstance(x, Model)]
     for rm in models[:2]:
         tags.append("result:Model")
-        for cls, what in wellformed(rm, model, fn):
+        for cls, what in wellformed(rm, model, fn, kwargs):
             mon.append({"cls": cls, "what": f"{fn}(model, {json.dumps(_describe(kwargs), default=str)[:160]}) returned a model with: {what}"})
         # copying returns an equal object
         try:
@@ -1352,11 +1410,114 @@ def run_commute(case, drv):
     return {"k": k, "mon": mon, "tags": tags, "nontrivial": True}
 
 
+def run_coll(case, drv):
+    """The container algebra used directly: create / replace / + / reflected + of Parameters, RandomVariables and
+    DataInfo on items whose names collide with names already present — with equal and with different attributes.
+    Expected: a refusal (ValueError) or a collection with unique names.  K: the Lean `combine` under the policy the
+    translator read off the source for this operation."""
+    import pharmpy.model as PM
+    rng = random.Random(case["seed"])
+    k, mon, tags = [], [], []
+    cls = case["cls"]
+    method, operand = COLL_OPS[case["op"]]
+    pool = [f"N{i}" for i in range(5)]
+
+    def item(names, variant):
+        if cls == "Parameters":
+            it = PM.Parameter.create(names[0], [1.5, 2.0, 0.5][variant % 3], lower=0, fix=variant >= 3)
+            return it, ([it.name], f"{it.init};{it.lower};{it.upper};{it.fix}")
+        if cls == "DataInfo":
+            it = PM.ColumnInfo.create(names[0], type=["unknown", "covariate", "dv"][variant % 3])
+            return it, ([it.name], it.type)
+        if len(names) == 1:
+            it = PM.NormalDistribution.create(names[0], "iiv", 0, f"OM{variant}")
+        else:
+            it = PM.JointNormalDistribution.create(list(names), "iiv", [0, 0], [[f"A{variant}", "B"], ["B", f"C{variant}"]])
+        return it, (list(it.names), str(it.variance))
+
+    def items(name_lists):
+        built = [item(ns, rng.randrange(5)) for ns in name_lists]
+        return [b[0] for b in built], [b[1] for b in built]
+
+    def draw_names(avoid, n, collide):
+        out = []
+        free = [x for x in pool if x not in avoid]
+        for _ in range(n):
+            if cls == "RandomVariables" and rng.random() < 0.3 and len(free) >= 2:
+                ns = [free.pop(rng.randrange(len(free))), free.pop(rng.randrange(len(free)))]
+            elif free:
+                ns = [free.pop(rng.randrange(len(free)))]
+            else:
+                break
+            if collide and avoid and rng.random() < 0.7:
+                ns[0] = rng.choice(sorted(avoid))
+            out.append(ns)
+        return out
+
+    self_names = draw_names(set(), rng.randint(0, 3), False)
+    self_real, self_enc = items(self_names)
+    taken = {n for ns in self_names for n in ns}
+    n_other = 1 if operand == "item" else rng.randint(0, 3)
+    other_names = draw_names(taken, n_other, rng.random() < 0.7)
+    if method in ("create", "replace") and rng.random() < 0.5 and other_names:
+        other_names.append(list(rng.choice(other_names)))          # a repeated name inside one argument list
+    other_real, other_enc = items(other_names)
+    if other_real and self_real and rng.random() < 0.2:
+        other_real[0], other_enc[0] = self_real[0], self_enc[0]     # the very same item again
+    C = getattr(PM, cls)
+    kw = {"Parameters": "parameters", "RandomVariables": "dists", "DataInfo": "columns"}[cls]
+    try:
+        base = C.create(self_real)
+    except Exception as e:
+        return {"tags": [f"coll:base-raises:{type(e).__name__}"], "nontrivial": False}
+    reflected = method == "__radd__"
+    try:
+        if method == "create":
+            res = C.create(other_real)
+            self_enc = []
+        elif method == "replace":
+            res = base.replace(**{kw: tuple(other_real)})
+            self_enc = []
+        elif operand == "item":
+            res = (other_real[0] + base) if reflected else (base + other_real[0])
+        elif operand == "collection":
+            res = base + C.create(other_real)
+        else:
+            res = (list(other_real) + base) if reflected else (base + list(other_real))
+        outcome = ["ok", [str(n) for n in res.names]]
+    except ValueError:
+        outcome = ["err"]
+    except Exception as e:
+        # an inner create of the *operand* may refuse before the operation under test; anything else is recorded
+        outcome = ["exc", type(e).__name__]
+    tags += [f"coll:{cls}.{method}:{operand}:{outcome[0]}"]
+    if outcome[0] == "ok" and len(set(outcome[1])) != len(outcome[1]):
+        dup = sorted(n for n in set(outcome[1]) if outcome[1].count(n) > 1)
+        mon.append({"cls": f"container-duplicate-names:{cls}.{method}",
+                    "what": f"{cls}.{method} ({operand}) on names {self_names} and {other_names} returned a collection with the "
+                            f"name(s) {dup} defined twice instead of refusing"})
+    if drv is not None and outcome[0] != "exc" and not (operand == "collection" and outcome[0] == "err"
+                                                         and len({n for ns in other_names for n in ns}) != sum(map(len, other_names))):
+        enc = lambda xs: [[ns, a] for ns, a in xs]
+        ans = drv.ask(["combine", cls, method, operand, reflected, enc(self_enc), enc(other_enc)])
+        if ans[0] == "ok":
+            if outcome[0] != "ok" or ans[1] != outcome[1]:
+                k.append(f"{cls}.{method}:{operand}: model returns {ans[1]} (policy {ans[3]}), code {outcome} on {self_enc} / {other_enc}")
+        elif ans == ["err", "no-such-op"]:
+            k.append(f"{cls}.{method}:{operand}: no policy in Generated.containerOps")
+        elif ans[0] == "err":
+            if outcome[0] != "err":
+                k.append(f"{cls}.{method}:{operand}: model refuses ({ans[1]}), code {outcome} on {self_enc} / {other_enc}")
+        else:
+            k.append(f"{cls}.{method}:{operand}: driver answered {ans}")
+    return {"k": k, "mon": mon, "tags": tags, "nontrivial": bool(other_names)}
+
+
 def run_case(case, drv):
     import time
     t0 = time.time()
     kind = case["kind"]
-    res = (run_call if kind == "call" else run_orders if kind == "orders" else run_commute if kind == "commute" else run_obj)(case, drv)
+    res = {"call": run_call, "orders": run_orders, "commute": run_commute, "coll": run_coll}.get(kind, run_obj)(case, drv)
     dt = time.time() - t0
     if dt > 3 and os.environ.get("VERIF_DEBUG"):   # timing is not part of the (deterministic) evidence
         res.setdefault("tags", []).append(f"slow>3s:{case.get('fn', case.get('what'))}:recipe{case.get('recipe', '')}:{int(dt)}s")
@@ -1366,9 +1527,7 @@ def run_case(case, drv):
 def translators():
     from harness.translate import c06_eqhash
     out = [("T3a-eqhash-fields", c06_eqhash.run)]
-    try:
-        from harness.translate import c06_effects
-        out.append(("T3b-effects", c06_effects.run))
-    except ImportError:
-        pass
+    from harness.translate import c06_effects, c06_containers
+    out.append(("T3b-effects", c06_effects.run))
+    out.append(("T3c-container-policies", c06_containers.run))
     return out
